@@ -67,6 +67,7 @@ func (sc *c20AuxScenario) Enabled(w *simWorld) []simEvent {
 }
 
 func (sc *c20AuxScenario) Apply(w *simWorld, e simEvent) {
+	_ = os.MkdirAll(sc.dir, 0o755)
 	switch e.Op {
 	case "mrt-table":
 		w.must(w.s.EnableMrt(context.Background(), &api.EnableMrtRequest{DumpType: api.EnableMrtRequest_DUMP_TYPE_TABLE, Filename: filepath.Join(sc.dir, "table.mrt"), DumpInterval: 60}))
@@ -90,10 +91,8 @@ func (sc *c20AuxScenario) Apply(w *simWorld, e simEvent) {
 
 func (sc *c20AuxScenario) Check(w *simWorld, last *simEvent) {
 	w.stat("aux-" + fmt.Sprintf("table=%v-updates=%v", sc.table, sc.upd))
-	if last != nil {
-		os.RemoveAll(sc.dir)
-		_ = os.MkdirAll(sc.dir, 0o755)
-	}
+	// the scratch directory does not outlive the job (Apply re-creates it when a replayed history goes on)
+	os.RemoveAll(sc.dir)
 }
 
 func (sc *c20AuxScenario) Key(w *simWorld) string {
